@@ -65,11 +65,26 @@ impl Server {
             while let Some(p) = s[from..].find(marker) {
                 let start = from + p;
                 let blk: String = s[start..].chars().take(3000).collect();
-                // first frame inside the repository
-                let frame = blk.find("/repo/src/").map(|q| blk[q + 6..].chars().take_while(|c| !c.is_whitespace() && *c != ':').collect::<String>());
+                // first frame inside the repository: by source path (builds with line tables) or, failing that, by the
+                // crate's symbol prefix ("in adlt::remote::process_incoming_text_message::<..>")
+                let frame = blk
+                    .find("/repo/src/")
+                    .map(|q| blk[q + 6..].chars().take_while(|c| !c.is_whitespace() && *c != ':').collect::<String>())
+                    .or_else(|| {
+                        // ASan: "#0 0x.. in adlt::remote::f::<..> file", TSan: "#0 adlt::remote::f::<..> file:line (adlt+0x..)"
+                        blk.lines().filter(|l| l.trim_start().starts_with('#')).find_map(|l| {
+                            let tok = l.split_whitespace().find(|t| t.starts_with("adlt::") || t.starts_with("<adlt::"))?;
+                            Some(tok.trim_start_matches('<').chars().take_while(|c| c.is_alphanumeric() || *c == ':' || *c == '_').collect::<String>().trim_end_matches(':').to_string())
+                        })
+                    });
                 let head: String = blk.lines().next().unwrap_or("").chars().take(100).collect();
                 let class = match &frame {
-                    Some(f) => format!("{}:{}@{}", kind, head.split(':').nth(2).unwrap_or("").trim().chars().take(50).collect::<String>(), f),
+                    Some(f) => {
+                        // "heap-buffer-overflow on address 0x.. at pc .." -> "heap-buffer-overflow"; "data race (pid=..)" -> "data race"
+                        let what = head.split(':').nth(2).unwrap_or("").trim();
+                        let what = what.split(" on address").next().unwrap_or(what).split(" (pid").next().unwrap_or(what);
+                        format!("{}:{}@{}", kind, what.chars().take(50).collect::<String>(), f)
+                    }
                     None => format!("{}-note-without-repo-frame", kind),
                 };
                 v.push((class, blk));
